@@ -72,3 +72,28 @@ Definition agree (doc : json) (p : jpath) : bool :=
 Definition bad_cases (l : list (json * jpath)) : list nat :=
   flat_map (fun ic => if agree (fst (snd ic)) (snd (snd ic)) then [] else [fst ic])
            (combine (seq 0 (List.length l)) l).
+
+(* the same comparison for the real predicate language: machine with eval_h, specification with seval_h *)
+From TP Require Import SpecHas.
+
+Fixpoint machine_stream_h (fuel : nat) (B : positive) (doc : json) (vp : jpath) (tr : @tracecfg json)
+         (z : @state json) : rs :=
+  match fuel with
+  | O => ([], Some EFuel)
+  | S f =>
+      match next jshape jpred (eval_h jshape (fun d => d) B HFUEL DEPTH) B (SrcDoc doc) vp tr z with
+      | (OResult _, z', es) => rseq (map abs_ev es, None) (machine_stream_h f B doc vp tr z')
+      | (ORaise EStop, _, es) => (map abs_ev es, None)
+      | (ORaise e, _, es) => (map abs_ev es, Some e)
+      end
+  end.
+
+Definition agree_h (doc : json) (vp : jpath) : bool :=
+  otree_eqb (ors (machine_stream_h 500 BUDGET doc vp (Some None) init_state))
+            (ors (sem jpred (seval_h DEPTH) 0 vp None (root_ctx doc)))
+  && otree_eqb (ors (machine_stream_h 500 BUDGET doc vp None init_state))
+               (ors (let r := sem jpred (seval_h DEPTH) 0 vp None (root_ctx doc) in (proj false (fst r), snd r))).
+
+Definition bad_cases_h (l : list (json * jpath)) : list nat :=
+  flat_map (fun ic => if agree_h (fst (snd ic)) (snd (snd ic)) then [] else [fst ic])
+           (combine (seq 0 (List.length l)) l).
